@@ -8,6 +8,11 @@ Lemma C20_wanted :
               s_flow := FlowNone |}.
 Proof. reflexivity. Qed.
 
+(* Whatever read_settings returned -- the device's real settings, stale ones, anything -- the settings written back are
+   the wanted ones: all five fields are set. *)
+Lemma apply_setters_wanted s : apply_setters s = wanted.
+Proof. reflexivity. Qed.
+
 Lemma C20_ok_means_configured p t p' :
   configure_port p t = Ok p' ->
   sp_settings p' = wanted /\ sp_timeout p' = Some t /\ sp_fail p = FailNone /\ timeout_accepted p t = true.
